@@ -5,11 +5,13 @@
     reals; algebra of the second-moment recurrence of a full step (Model/Moments2.v).
     Only statements closed by [exact]; proofs in Proofs/FokkerPlanckP.v, SpreadP.v, SpreadR.v.
 
-    NOT carried by a theorem (explored by the check on the implementation only): that the recurrence
-    of Model/Moments2.v is what RF kick and drift do to the grid moments (needs the kick family's
-    quadratic moment transport), the contraction of the coupled 3x3 system, the 4-point stencil's
-    moments, and the truncation at the grid border over histories longer than the distance of the
-    support from the border (the closed form below holds as long as the support stays interior). *)
+    Second wave (end of this file): the recurrence of Model/Moments2.v as a theorem about the grid model
+    (RF kick, drift, 3-point FP), its fixed point, contraction and J per step.
+
+    NOT carried by a theorem (explored by the check on the implementation only): contraction for overdamped
+    settings (e1 > a), the 4-point stencil's moments, and the truncation at the grid border over histories
+    longer than the distance of the support from the border (the closed forms hold as long as the support
+    stays interior). *)
 From Coq Require Import List ZArith QArith Qcanon Reals Lia.
 From Inovesa Require Import Base.FieldKit Base.Float32 Base.RInst Base.Sums Gen.Gen_FPStencil
   Model.FokkerPlanck Model.Moments2 Proofs.FPGridP Proofs.FokkerPlanckP Proofs.FPMomentsP Proofs.SpreadP Proofs.SpreadR
@@ -208,3 +210,371 @@ Example C04_main_e1_example :
   o_is0 QcOps (L O_getSyncFreq) = false.
 Proof. vm_compute. repeat split; reflexivity. Qed.
 End ScalingFamily.
+(** ------------------------------------------------------------------------------------------------
+    Second wave: the coupled dynamics of a FULL step (RF kick v += t u, drift u -= a v, 3-point
+    Fokker-Planck) - the recurrence as a theorem about the grid model, its fixed point, contraction,
+    and J per step.  Proofs in Proofs/Moment2RowP.v, StepMoments2P.v, StepExampleP.v (grid, exact
+    rationals), CoupledP.v (every field), CoupledR.v (reals).
+
+    The moments are the raw second moments about the zero bins, in cells:
+      Muu = sum (x-xc)^2 f, Muv = sum (x-xc)(y-yc) f, Mvv = sum (y-yc)^2 f, M0 = sum f;
+    these (not the moments about the moving centroid) obey a closed recurrence.
+    ------------------------------------------------------------------------------------------------ *)
+From Inovesa Require Import Model.RF Model.Moments2Fix Proofs.WeightsP Proofs.RFP Proofs.RFGridP Proofs.Moment2RowP
+  Proofs.StepMoments2P Proofs.RFExampleP Proofs.StepExampleP Proofs.CoupledP Proofs.CoupledR Proofs.CoupledGridR Proofs.FPStabilityP.
+Import ListNotations.
+
+(** C04.3a, one kick row: the centred second moment moves exactly by the displacement the table row encodes,
+    plus [kappa it f] per unit of charge, [f] = fractional part of the float sum n/2 + offset:
+    kappa = f(1-f) for linear interpolation (it = 2), 0 for it >= 3. *)
+Theorem C04_row_second_moment_transport :
+  forall n it o (r : Z -> Qc) (c : Qc),
+    valid_it it -> 2 <= it -> 0 < n < 2 ^ 30 -> row_ok n it o r ->
+    sumQ 0 (Z.to_nat n) (fun y => ((qz y - c) * (qz y - c) * row_out n it (sm_entry n it o) r y)%Qc) =
+    sumQ 0 (Z.to_nat n) (fun u => (((qz u - eff_off n o - c) * (qz u - eff_off n o - c)
+                                    + kapQ it (sp_frac (poffs_split n o))) * r u)%Qc).
+Proof. exact sm_row_second_moment_c. Qed.
+Print Assumptions C04_row_second_moment_transport.
+
+Theorem C04_interpolation_variance_inflation :
+  (forall it (f : Qc), 3 <= it -> kapQ it f = 0%Qc) /\
+  (forall (f : Qc), kapQ 2 f = (f * (1 - f))%Qc) /\
+  (forall it (f : Qc), (0 <= f)%Qc -> (f <= 1)%Qc -> (0 <= kapQ it f)%Qc /\ (kapQ it f <= Q2Qc (1 # 4))%Qc).
+Proof. split; [exact kappa_ge3 | split; [reflexivity | exact kappa_bounds]]. Qed.
+Print Assumptions C04_interpolation_variance_inflation.
+
+(** C04.3b, lifted to the grid, any bunch b of an nb-bunch grid, it >= 2: the RF kick ... *)
+Theorem C04_rf_kick_second_moments :
+  forall n nb it, valid_it it -> 2 <= it -> 0 < n < 2 ^ 30 -> 0 < nb ->
+  forall (xc yc : Qc) (offs D : Z -> Qc) (t : Qc) b,
+    0 <= b < nb -> rows_ok_y n nb it offs D b ->
+    (forall x, 0 <= x < n -> eff_off n (offs (Z.min b (nb - 1) * n + x)) = (t * (xc - qz x))%Qc) ->
+    let D' := apply_y n nb it (updateSM n it offs) D in
+    MUU n xc D' b = MUU n xc D b /\
+    MUV n xc yc D' b = (MUV n xc yc D b + t * MUU n xc D b)%Qc /\
+    MVV n yc D' b = (MVV n yc D b + (1 + 1) * t * MUV n xc yc D b + t * t * MUU n xc D b
+                     + infl_y n nb it offs D b)%Qc.
+Proof. exact rf_kick_moments2. Qed.
+Print Assumptions C04_rf_kick_second_moments.
+
+(** ... the drift ... *)
+Theorem C04_drift_second_moments :
+  forall n nb it, valid_it it -> 2 <= it -> 0 < n < 2 ^ 30 -> 0 < nb ->
+  forall (xc yc : Qc) (offs D : Z -> Qc) (a : Qc) b,
+    0 <= b < nb -> cols_ok_x n it offs D b ->
+    (forall y, 0 <= y < n -> eff_off n (offs y) = (a * (qz y - yc))%Qc) ->
+    let D' := apply_x n nb it (updateSM n it offs) D in
+    MUU n xc D' b = (MUU n xc D b - (1 + 1) * a * MUV n xc yc D b + a * a * MVV n yc D b
+                     + infl_x n it offs D b)%Qc /\
+    MUV n xc yc D' b = (MUV n xc yc D b - a * MVV n yc D b)%Qc /\
+    MVV n yc D' b = MVV n yc D b.
+Proof. exact drift_kick_moments2. Qed.
+Print Assumptions C04_drift_second_moments.
+
+(** ... and the 3-point Fokker-Planck step on every energy column of the bunch (energy axis delta*(y - yc));
+    its M0 part is charge conservation of FokkerPlanckMap::apply on a whole bunch with realistic support *)
+Theorem C04_fp_grid_second_moments :
+  forall n (e1 delta : Qc) (p : Z -> Qc) (v le m : Z), 2 <= n < 2 ^ 30 ->
+  forall (xc yc : Qc), (forall j, p j = (delta * (qz j - yc))%Qc) -> delta <> 0%Qc ->
+  forall (D : Z -> Qc) b, fp_ok n D b ->
+    let dd := opt (K:=QcF) (has_damp v) e1 in
+    let ff := opt (K:=QcF) (has_diff v) e1 in
+    M0 n (fp_grid n e1 delta p v le m D) b = M0 n D b /\
+    MUU n xc (fp_grid n e1 delta p v le m D) b = MUU n xc D b /\
+    MUV n xc yc (fp_grid n e1 delta p v le m D) b = ((1 - dd) * MUV n xc yc D b)%Qc /\
+    MVV n yc (fp_grid n e1 delta p v le m D) b =
+      ((1 - (1 + 1) * dd) * MVV n yc D b + ((1 + 1) * ff / (delta * delta) - dd) * M0 n D b)%Qc.
+Proof. exact fp_grid_moments2. Qed.
+Print Assumptions C04_fp_grid_second_moments.
+
+(** C04.3c, ONE FULL STEP (RFKickMap::apply, DriftMap::apply, FokkerPlanckMap::apply, 3-point stencil):
+    with at least three interpolation points the vector (Muu, Muv, Mvv, M0) moves exactly by [sm_step] -
+    the function the correspondence iterates ([smq_step] is its list front-end in the extracted driver) -
+    for every bunch, data (signed included), grid size and zero bins, while the distribution stays inside. *)
+Theorem C04_full_step_second_moments :
+  forall n nb it, valid_it it -> 2 <= it -> 2 <= n < 2 ^ 30 -> 0 < nb ->
+  forall (xc yc t a : Qc) (orf odr : Z -> Qc) (e1 delta : Qc) (p : Z -> Qc) (v le m : Z),
+    (forall b x, 0 <= b < nb -> 0 <= x < n ->
+        eff_off n (orf (Z.min b (nb - 1) * n + x)) = (t * (xc - qz x))%Qc) ->
+    (forall y, 0 <= y < n -> eff_off n (odr y) = (a * (qz y - yc))%Qc) ->
+    (forall j, p j = (delta * (qz j - yc))%Qc) -> delta <> 0%Qc ->
+  forall D b, 3 <= it -> 0 <= b < nb -> full_ok n nb it orf odr D b ->
+    gm2 n xc yc (full_step n nb it orf odr e1 delta p v le m D) b =
+    sm_step (K:=QcF) v a t e1 delta (gm2 n xc yc D b).
+Proof. exact full_step_moments. Qed.
+Print Assumptions C04_full_step_second_moments.
+
+Theorem C04_full_step_is_smq_step :
+  forall n nb it, valid_it it -> 2 <= it -> 2 <= n < 2 ^ 30 -> 0 < nb ->
+  forall (xc yc t a : Qc) (orf odr : Z -> Qc) (e1 delta : Qc) (p : Z -> Qc) (v le m : Z),
+    (forall b x, 0 <= b < nb -> 0 <= x < n ->
+        eff_off n (orf (Z.min b (nb - 1) * n + x)) = (t * (xc - qz x))%Qc) ->
+    (forall y, 0 <= y < n -> eff_off n (odr y) = (a * (qz y - yc))%Qc) ->
+    (forall j, p j = (delta * (qz j - yc))%Qc) -> delta <> 0%Qc ->
+  forall D b, 3 <= it -> 0 <= b < nb -> full_ok n nb it orf odr D b ->
+    gm2_list n xc yc (full_step n nb it orf odr e1 delta p v le m D) b =
+    smq_step v a t e1 delta (gm2_list n xc yc D b).
+Proof. exact full_step_moments_list. Qed.
+Print Assumptions C04_full_step_is_smq_step.
+
+(** k steps: the recurrence iterated *)
+Theorem C04_iterated_steps_second_moments :
+  forall n nb it, valid_it it -> 2 <= it -> 2 <= n < 2 ^ 30 -> 0 < nb ->
+  forall (xc yc t a : Qc) (orf odr : Z -> Qc) (e1 delta : Qc) (p : Z -> Qc) (v le m : Z),
+    (forall b x, 0 <= b < nb -> 0 <= x < n ->
+        eff_off n (orf (Z.min b (nb - 1) * n + x)) = (t * (xc - qz x))%Qc) ->
+    (forall y, 0 <= y < n -> eff_off n (odr y) = (a * (qz y - yc))%Qc) ->
+    (forall j, p j = (delta * (qz j - yc))%Qc) -> delta <> 0%Qc ->
+  forall D b (k : nat), 3 <= it -> 0 <= b < nb ->
+    (forall j, (j < k)%nat -> full_ok n nb it orf odr (iter_full n nb it orf odr e1 delta p v le m j D) b) ->
+    gm2 n xc yc (iter_full n nb it orf odr e1 delta p v le m k D) b =
+    sm_iter (K:=QcF) k v a t e1 delta (gm2 n xc yc D b).
+Proof. exact iter_full_moments. Qed.
+Print Assumptions C04_iterated_steps_second_moments.
+
+(** every interpolation type with at least two points: the exact law, with the variance the two kicks add
+    (Nrf, Ndr: sums over rows / columns of kappa * charge; zero from it = 3 on) ... *)
+Theorem C04_full_step_second_moments_any_interpolation :
+  forall n nb it, valid_it it -> 2 <= it -> 2 <= n < 2 ^ 30 -> 0 < nb ->
+  forall (xc yc t a : Qc) (orf odr : Z -> Qc) (e1 delta : Qc) (p : Z -> Qc) (v le m : Z),
+    (forall b x, 0 <= b < nb -> 0 <= x < n ->
+        eff_off n (orf (Z.min b (nb - 1) * n + x)) = (t * (xc - qz x))%Qc) ->
+    (forall y, 0 <= y < n -> eff_off n (odr y) = (a * (qz y - yc))%Qc) ->
+    (forall j, p j = (delta * (qz j - yc))%Qc) -> delta <> 0%Qc ->
+  forall D b, 0 <= b < nb -> full_ok n nb it orf odr D b ->
+    gm2 n xc yc (full_step n nb it orf odr e1 delta p v le m D) b =
+    sm_fp (K:=QcF) v e1 delta
+      (bump_uu (infl_x n it odr (rf_apply n nb it orf D) b)
+         (sm_drift (K:=QcF) a (bump_vv (infl_y n nb it orf D b) (sm_rf (K:=QcF) t (gm2 n xc yc D b))))).
+Proof. exact full_step_moments_general. Qed.
+Print Assumptions C04_full_step_second_moments_any_interpolation.
+
+(** ... for linear interpolation as a correction of [sm_step], and the size of the correction for
+    non-negative data: between 0 and a quarter of the charge (a discretisation error the property allows) *)
+Theorem C04_linear_interpolation_numerical_diffusion :
+  forall n nb it, valid_it it -> 2 <= it -> 2 <= n < 2 ^ 30 -> 0 < nb ->
+  forall (xc yc t a : Qc) (orf odr : Z -> Qc) (e1 delta : Qc) (p : Z -> Qc) (v le m : Z),
+    (forall b x, 0 <= b < nb -> 0 <= x < n ->
+        eff_off n (orf (Z.min b (nb - 1) * n + x)) = (t * (xc - qz x))%Qc) ->
+    (forall y, 0 <= y < n -> eff_off n (odr y) = (a * (qz y - yc))%Qc) ->
+    (forall j, p j = (delta * (qz j - yc))%Qc) -> delta <> 0%Qc ->
+  forall D b, it = 2 -> 0 <= b < nb -> full_ok n nb it orf odr D b ->
+    let Nrf := infl_y n nb it orf D b in
+    let Ndr := infl_x n it odr (rf_apply n nb it orf D) b in
+    let s := sm_step (K:=QcF) v a t e1 delta (gm2 n xc yc D b) in
+    let dd := opt (K:=QcF) (has_damp v) e1 in
+    gm2 n xc yc (full_step n nb it orf odr e1 delta p v le m D) b =
+    mkMom2 (K:=QcF) (muu s + (Ndr + a * a * Nrf))%Qc (muv s - (1 - dd) * a * Nrf)%Qc
+                    (mvv s + (1 - (1 + 1) * dd) * Nrf)%Qc (m0 s).
+Proof. exact full_step_moments_linear. Qed.
+Print Assumptions C04_linear_interpolation_numerical_diffusion.
+
+Theorem C04_numerical_diffusion_bounds :
+  forall n nb it (offs G : Z -> Qc) b,
+    (forall x, 0 <= x < n -> (0 <= sp_frac (poffs_split n (offs (Z.min b (nb - 1) * n + x)%Z)) <= 1)%Qc) ->
+    (forall x, 0 <= x < n -> (0 <= A0 n G b x)%Qc) ->
+    (0 <= infl_y n nb it offs G b)%Qc /\ (infl_y n nb it offs G b <= Q2Qc (1 # 4) * M0 n G b)%Qc.
+Proof. exact infl_y_bounds. Qed.
+Print Assumptions C04_numerical_diffusion_bounds.
+
+(** non-vacuity: an 8 x 8 grid, quadratic interpolation, meeting every hypothesis of the full-step theorem;
+    the two sides evaluated by the kernel on the grid model and on the recurrence *)
+Example C04_full_step_example :
+  full_ok 8 1 3 ex_orf ex_odr ex_D2 0 /\
+  gm2_list 8 ex_c ex_c (full_step 8 1 3 ex_orf ex_odr ex_e1 ex_delta ex_p fpt_full 0 0 ex_D2) 0 =
+  smq_step fpt_full ex_a ex_t ex_e1 ex_delta (gm2_list 8 ex_c ex_c ex_D2 0) /\
+  map this (gm2_list 8 ex_c ex_c ex_D2 0) = [3 # 4; -1 # 4; 3 # 4; 3 # 1]%Q.
+Proof. split; [exact ex_full_ok | split; [exact ex_full_step | vm_compute; reflexivity]]. Qed.
+
+(** C04.4 the fixed point of the recurrence, every field: with damping, c = 2 f/delta^2 - e1 and
+    R = 2 c / (e1 (4 - a t)):  Muu = a R (2 - e1)/(2 t), Muv = -(1 - e1) a R / 2, Mvv = R (1 - e1 a t/2)
+    per unit charge.  (i) it is a fixed point for every charge z: once there the moments stay constant ... *)
+Theorem C04_fixed_point :
+  forall (K : Fld) (v : Z) (a t e1 delta : K),
+    has_damp v = true -> t <> f0 -> e1 <> f0 -> fsub four (fmul a t) <> f0 -> delta <> f0 ->
+    forall z : K, sm_step v a t e1 delta (sm_fix v a t e1 delta z) = sm_fix v a t e1 delta z.
+Proof. exact sm_fix_fixed. Qed.
+Print Assumptions C04_fixed_point.
+
+(** ... (ii) and it is the only one: equilibrium does not depend on the start *)
+Theorem C04_fixed_point_unique :
+  forall (K : Fld) (v : Z) (a t e1 delta : K),
+    has_damp v = true -> t <> f0 -> e1 <> f0 -> fsub four (fmul a t) <> f0 -> delta <> f0 -> a <> f0 ->
+    forall m : mom2 K, sm_step v a t e1 delta m = m -> m = sm_fix v a t e1 delta (m0 m).
+Proof. exact sm_fix_unique. Qed.
+Print Assumptions C04_fixed_point_unique.
+
+(** in natural units (times delta^2), damping and diffusion:
+    energy spread^2 = (2 - delta^2)(2 - e1 a t)/(4 - a t) = (1 - delta^2/2)(1 - e1 a t/2)/(1 - a t/4),
+    bunch length^2  = a (2 - delta^2)(2 - e1)/(t (4 - a t)) = (a/t)(1 - e1/2)(1 - delta^2/2)/(1 - a t/4) *)
+Theorem C04_fixed_point_natural_units :
+  forall (K : Fld) (v : Z) (a t e1 delta : K),
+    t <> f0 -> e1 <> f0 -> fsub four (fmul a t) <> f0 -> delta <> f0 -> has_diff v = true ->
+    fmul (fmul delta delta) (fix_vv v a t e1 delta) =
+      fdiv (fmul (fsub two (fmul delta delta)) (fsub two (fmul (fmul e1 a) t))) (fsub four (fmul a t)) /\
+    fmul (fmul delta delta) (fix_uu v a t e1 delta) =
+      fdiv (fmul (fmul a (fsub two (fmul delta delta))) (fsub two e1)) (fmul t (fsub four (fmul a t))).
+Proof. exact fix_natural_units. Qed.
+Print Assumptions C04_fixed_point_natural_units.
+
+(** a = 1/10, t = 1003/10000, e1 = 3/100, delta = 7/32: the fixed point per unit charge (in cells^2), and in
+    natural units 0.96097 (bunch length^2) and 0.97838 (energy spread^2) *)
+Example C04_fixed_point_example :
+  let fx := smq_fix fpt_full (Q2Qc (1 # 10)) (Q2Qc (1003 # 10000)) (Q2Qc (3 # 100)) (Q2Qc (7 # 32)) in
+  map this fx = [393803000000 # 19609505559; -19390300 # 19550853; 5710569287 # 279297900]%Q /\
+  map (fun q => this (Q2Qc (49 # 1024) * q)%Qc) fx =
+    [6153171875 # 6403103856; -4847575 # 102143232; 39973985009 # 40857292800]%Q.
+Proof. vm_compute. split; reflexivity. Qed.
+
+Local Open Scope R_scope.
+(** (iii) "to within the discretisation error": on the documented domain (0 < a <= 1/10, a <= t <= a + a^3
+    - t = tan a lies there -, 0 < e1 <= 1/10, 0 < delta <= 1/2) both equilibrium spreads are 1 up to
+    delta^2/2 (grid) + e1/2 (where in the step the moments are read) + a^2 (splitting);
+    [spread_p2], [spread_q2] are delta^2 times [fix_vv], [fix_uu], the fixed point of C04_fixed_point (has_damp v) *)
+Theorem C04_fixed_point_unit_width :
+  forall (v : Z) (a t e delta : R), has_diff v = true -> dom_doc a t e delta ->
+    1 - delta * delta / 2 <= spread_p2 v a t e delta <= 1 + a * a /\
+    1 - delta * delta / 2 - e / 2 - a * a <= spread_q2 v a t e delta <= 1 + a * a.
+Proof. exact fixed_point_unit_width. Qed.
+Print Assumptions C04_fixed_point_unit_width.
+
+Theorem C04_fixed_point_within_discretisation_error :
+  forall (v : Z) (a t e delta : R), has_diff v = true -> dom_doc a t e delta -> e <= a ->
+    Rabs (spread_p2 v a t e delta - 1) <= delta * delta + a /\
+    Rabs (spread_q2 v a t e delta - 1) <= delta * delta + a.
+Proof. exact fixed_point_within_discretisation. Qed.
+Print Assumptions C04_fixed_point_within_discretisation_error.
+
+Example C04_dom_doc_example : dom_doc (1 / 10) (1003 / 10000) (3 / 100) (7 / 32) /\ dom_ud (1 / 10) (1003 / 10000) (3 / 100).
+Proof. exact dom_example. Qed.
+
+(** (iv) contraction.  N(x,y,z) = (g1 x + 2 g12 y + g2 z)^2 - 2 DG (x z - y^2) with g1 = (1-e) t, g12 = (a t - e)/2,
+    g2 = a, DG = g1 g2 - g12^2 is a positive definite quadratic form whenever DG > 0 (underdamped), and one step
+    of the linear part of the recurrence (kick, drift, FP on a zero-charge vector) shrinks it by rho^2,
+    rho = (1-e) + e^2 g1 g2/((1-e) DG) ... *)
+Theorem C04_coupled_contraction_one_step :
+  forall a t e x y z : R, 0 < e < 1 -> 0 < a -> 0 < t -> 0 < DG (K:=RF) a t e ->
+    NN (K:=RF) a t e (Pk (K:=RF) a t x y z) ((1 - e) * Qk (K:=RF) a t x y z) ((1 - (1 + 1) * e) * Rk (K:=RF) t x y z)
+    <= rho (K:=RF) a t e * rho (K:=RF) a t e * NN (K:=RF) a t e x y z.
+Proof. exact contraction_step. Qed.
+Print Assumptions C04_coupled_contraction_one_step.
+
+Theorem C04_norm_is_definite :
+  forall a t e x y z : R, 0 < DG (K:=RF) a t e -> 0 < g1 (K:=RF) t e ->
+    0 <= NN (K:=RF) a t e x y z /\ (NN (K:=RF) a t e x y z = 0 -> x = 0 /\ y = 0 /\ z = 0).
+Proof. intros a t e x y z HD Hg. split; [exact (N_nonneg a t e x y z HD Hg) | exact (N_zero a t e x y z HD Hg)]. Qed.
+Print Assumptions C04_norm_is_definite.
+
+(** ... on the underdamped domain (0 < e <= 1/10, e <= a <= t, a t <= 1): DG >= 13/20 a t and rho <= 1 - 4e/5 *)
+Theorem C04_contraction_factor_on_domain :
+  forall a t e : R, dom_ud a t e ->
+    (13 / 20 * (a * t) <= DG (K:=RF) a t e /\ 0 < DG (K:=RF) a t e) /\ 0 < rho (K:=RF) a t e <= 1 - 4 / 5 * e.
+Proof. intros a t e H. split; [exact (dom_DG a t e H) | exact (dom_rho a t e H)]. Qed.
+Print Assumptions C04_contraction_factor_on_domain.
+
+(** from ANY start (any charge, any second moments): the deviation from the fixed point of the same charge
+    shrinks geometrically in N, hence every second moment converges to its fixed-point value.
+    _partial: the damping decrement is assumed not to exceed the phase advance per step (e <= a, i.e. the damping
+    time is at least 1/pi synchrotron periods: every storage-ring setting).  The overdamped regime e > a (real
+    eigenvalues, DG may be <= 0) is not covered by this norm. *)
+Theorem C04_coupled_deviation_contracts_partial :
+  forall (v : Z) (a t e delta : R), has_damp v = true -> dom_ud a t e -> delta <> 0 ->
+  forall (k : nat) (m : mom2 RF),
+    Nm (K:=RF) a t e (dev (K:=RF) v a t e delta (sm_iter (K:=RF) k v a t e delta m))
+      <= (rho (K:=RF) a t e * rho (K:=RF) a t e) ^ k * Nm (K:=RF) a t e (dev (K:=RF) v a t e delta m) /\
+    0 < rho (K:=RF) a t e <= 1 - 4 / 5 * e.
+Proof. exact deviation_contracts. Qed.
+Print Assumptions C04_coupled_deviation_contracts_partial.
+
+Theorem C04_coupled_converges_to_fixed_point_partial :
+  forall (v : Z) (a t e delta : R), has_damp v = true -> dom_ud a t e -> delta <> 0 ->
+  forall (m : mom2 RF) (eps : R), 0 < eps -> exists K0 : nat, forall k, (k >= K0)%nat ->
+    Nm (K:=RF) a t e (dev (K:=RF) v a t e delta (sm_iter (K:=RF) k v a t e delta m)) <= eps /\
+    Rabs (mvv (sm_iter (K:=RF) k v a t e delta m) - m0 m * fix_vv (K:=RF) v a t e delta) * DG (K:=RF) a t e
+      <= g1 (K:=RF) t e * sqrt eps /\
+    Rabs (muu (sm_iter (K:=RF) k v a t e delta m) - m0 m * fix_uu (K:=RF) v a t e delta) * DG (K:=RF) a t e
+      <= g2 (K:=RF) a * sqrt eps.
+Proof. exact converges_to_fixed_point. Qed.
+Print Assumptions C04_coupled_converges_to_fixed_point_partial.
+
+(** C04.5 J = t Muu + a t Muv + a Mvv per full step, reals.  The individual spreads ripple at twice the
+    synchrotron frequency and are NOT monotone step by step; J is the quantity that is. *)
+Theorem C04_J_neither_stays_put :
+  forall (v : Z) (a t e delta : R), delta <> 0 -> forall m : mom2 RF,
+    has_damp v = false -> has_diff v = false ->
+    sm_J (K:=RF) a t (sm_step (K:=RF) v a t e delta m) = sm_J (K:=RF) a t m.
+Proof. exact J_neither. Qed.
+Print Assumptions C04_J_neither_stays_put.
+
+Theorem C04_J_diffusion_only_strictly_increases :
+  forall (v : Z) (a t e delta : R), delta <> 0 -> forall m : mom2 RF,
+    has_damp v = false -> has_diff v = true -> 0 < a -> 0 < e -> 0 < m0 m ->
+    sm_J (K:=RF) a t m < sm_J (K:=RF) a t (sm_step (K:=RF) v a t e delta m).
+Proof. exact J_diffusion_only_increases. Qed.
+Print Assumptions C04_J_diffusion_only_strictly_increases.
+
+(** damping only: strictly down whenever the moments after the drift are those of a non-negative distribution
+    (Cauchy-Schwarz) whose energy moment is not absurdly small against its position moment *)
+Theorem C04_J_damping_only_strictly_decreases :
+  forall (v : Z) (a t e delta : R), delta <> 0 -> forall m : mom2 RF,
+    has_damp v = true -> has_diff v = false -> 0 < a -> 0 < t -> 0 < e -> 0 < m0 m ->
+    let m' := sm_drift (K:=RF) a (sm_rf (K:=RF) t m) in
+    0 <= muu m' -> 0 <= mvv m' -> muv m' * muv m' <= muu m' * mvv m' -> t * t * muu m' <= 4 * mvv m' ->
+    sm_J (K:=RF) a t (sm_step (K:=RF) v a t e delta m) < sm_J (K:=RF) a t m.
+Proof. exact J_damping_only_decreases. Qed.
+Print Assumptions C04_J_damping_only_strictly_decreases.
+
+(** J follows the two spreads: (J - S)^2 <= (a t / 4) S^2 with S = t Muu + a Mvv *)
+Theorem C04_J_sandwich :
+  forall (a t : R) (m : mom2 RF), 0 < a -> 0 < t ->
+    0 <= muu m -> 0 <= mvv m -> muv m * muv m <= muu m * mvv m ->
+    let S := t * muu m + a * mvv m in
+    4 * ((sm_J (K:=RF) a t m - S) * (sm_J (K:=RF) a t m - S)) <= a * t * (S * S).
+Proof. exact J_sandwich. Qed.
+Print Assumptions C04_J_sandwich.
+
+(** C04.6 end to end, the grid model itself: reading its exact rational moments as reals ([phi], the embedding
+    Qc -> R, commutes with the recurrence), k full steps of RFKickMap, DriftMap and FokkerPlanckMap (3-point, with
+    damping) bring the second moments of bunch b closer to the fixed point by rho^2 per step in N - for every data,
+    grid and zero bins, as long as the distribution stays inside (finite horizon: in exact arithmetic the support
+    grows by a few cells per step).  _partial for the same reason as above (e1 <= a). *)
+Theorem C04_grid_deviation_contracts_partial :
+  forall (n nb it : Z), valid_it it -> (3 <= it)%Z -> (2 <= n < 2 ^ 30)%Z -> (0 < nb)%Z ->
+  forall (xc yc t a : Qc) (orf odr : Z -> Qc) (e1 delta : Qc) (p : Z -> Qc) (v le m : Z),
+    (forall b x, (0 <= b < nb)%Z -> (0 <= x < n)%Z ->
+        eff_off n (orf (Z.min b (nb - 1) * n + x)%Z) = (t * (xc - qz x))%Qc) ->
+    (forall y, (0 <= y < n)%Z -> eff_off n (odr y) = (a * (qz y - yc))%Qc) ->
+    (forall j, p j = (delta * (qz j - yc))%Qc) -> delta <> 0%Qc ->
+    has_damp v = true -> dom_ud (phi a) (phi t) (phi e1) ->
+  forall D b (k : nat), (0 <= b < nb)%Z ->
+    (forall j, (j < k)%nat -> full_ok n nb it orf odr (iter_full n nb it orf odr e1 delta p v le m j D) b) ->
+    Nm (K:=RF) (phi a) (phi t) (phi e1)
+       (dev (K:=RF) v (phi a) (phi t) (phi e1) (phi delta)
+            (mapm (gm2 n xc yc (iter_full n nb it orf odr e1 delta p v le m k D) b)))
+    <= (rho (K:=RF) (phi a) (phi t) (phi e1) * rho (K:=RF) (phi a) (phi t) (phi e1)) ^ k
+       * Nm (K:=RF) (phi a) (phi t) (phi e1)
+            (dev (K:=RF) v (phi a) (phi t) (phi e1) (phi delta) (mapm (gm2 n xc yc D b))).
+Proof. exact grid_deviation_contracts. Qed.
+Print Assumptions C04_grid_deviation_contracts_partial.
+
+(** C04.7 "per-step decrement within the explicit scheme's stable range" (the property's quantifier), made precise:
+    the grid's highest mode (-1)^j c is an eigenvector of every interior row of the 3-point step, eigenvalue
+    1 + d - 4 f/delta^2; with damping and diffusion it is not amplified iff 4 e1 <= (2 + e1) delta^2 (e1 <= delta^2/2
+    to first order).  Beyond it the float implementation amplifies rounding noise by |1 + e1 - 4 e1/delta^2| per step
+    (confirmed on the program: -s 256 -P 5 -N 100 -d 0.002 -f 8000 --derivation 3 gives NaN after a few steps), while
+    the moment laws above, which hold in exact arithmetic, are unaffected: the check's runs stay inside the range. *)
+Theorem C04_fp3_highest_mode_eigenvalue :
+  forall (K : Fld) (e1 delta : K) (p : Z -> K) (v n le m : Z) (r : Z -> K) (c : K) (y : Z),
+    (n < 2 ^ 32)%Z -> (1 <= y < n - 1)%Z -> delta <> f0 ->
+    r (y - 1)%Z = fopp c -> r y = c -> r (y + 1)%Z = fopp c ->
+    fp_col_out 3 (H3 K e1 delta p v n le m) r y = fmul (nyq_lambda e1 delta v) c.
+Proof. exact fp3_nyquist_mode. Qed.
+Print Assumptions C04_fp3_highest_mode_eigenvalue.
+
+Theorem C04_fp3_stable_range :
+  forall (e1 delta : R) (v : Z),
+    has_damp v = true -> has_diff v = true -> 0 < e1 -> delta <> 0 -> delta * delta <= 4 ->
+    (4 * e1 <= (2 + e1) * (delta * delta) -> Rabs (nyq_lambda (K:=RF) e1 delta v) <= 1) /\
+    ((2 + e1) * (delta * delta) < 4 * e1 -> 1 < Rabs (nyq_lambda (K:=RF) e1 delta v)).
+Proof. exact nyquist_stable_range. Qed.
+Print Assumptions C04_fp3_stable_range.
